@@ -28,6 +28,7 @@ structure Case where
   wip : Int := 0
   pip : Int := 0
   beam : Int := 0
+  beams : SSVerif.Beam.Beams := ⟨0, 0, 0⟩
   nstate : Nat := 0
   start : Nat := 0
   final : Nat := 0
@@ -67,7 +68,7 @@ def feed (c : Case) (ws : List String) : Case :=
     | _, _, _, _, _ => err "K"
   | ["P", "wip", wip, "pip", pip, "beam", beam, "pbeam", pb, "wbeam", wb, "compallsen", _] =>
     match parseInt wip, parseInt pip, parseInt beam, parseInt pb, parseInt wb with
-    | some wip, some pip, some b, some pb, some wb => { c with wip, pip, beam := max b (max pb wb) }
+    | some wip, some pip, some b, some pb, some wb => { c with wip, pip, beam := max b (max pb wb), beams := ⟨b, pb, wb⟩ }
     | _, _, _, _, _ => err "P"
   | ["G", n, s, f] =>
     match parseNat n, parseNat s, parseNat f with
@@ -332,11 +333,14 @@ def finish (c : Case) : String := Id.run do
       | none => (opt.isNone, "-")
       | some (s0, c0, steps, cx) =>
         (pathScore N em T s0 c0 steps cx == opt && opt.isSome, segments insts c.wordStr c.arcs (s0 :: steps.map (fun (e : Nat × Int) => e.1)))
+    -- the proved no-pruning condition (`C02_wide_beams_prune_nothing`), on the beam-annotated network
+    let B := buildB M tmatF insts
+    let regimeOK := SSVerif.Beam.regime B c.beams L.n em T
     let (lexOK, lexA, lexB) := if c.xn.isEmpty then (true, "-", "-") else lexCompare c insts
     let showO : Option Int → String := fun o => match o with | none => "none" | some v => toString v
     return s!"case {c.id} opt {showO opt} optef {showO optEf} empty {showO (best ((hops M M.start M.final).map some))} T {T} states {L.n} edges {N.edges.length} consts {c.constsOK} data {dataOK} " ++
       s!"fillerflags {!c.fillerMismatch} labels {labelsOK M L} closed {nullClosed M} monotone {monotone} skipcons {skipCons} agree {r.opt == opt} " ++
-      s!"lextree {lexOK} lexonly {lexA} flatonly {lexB} spread {r.spread} minval {showO r.minval} beam {c.beam} pathok {pathok} align {segs}"
+      s!"regime {regimeOK} lextree {lexOK} lexonly {lexA} flatonly {lexB} spread {r.spread} minval {showO r.minval} beam {c.beam} pathok {pathok} align {segs}"
 
 /-- unit ops: `hmm …` runs the model's `hmmStep`, `hist …` folds the model's `HistDom.add` -/
 def unitOp (ws : List String) : Option String :=
